@@ -75,11 +75,23 @@ def plan(tier, seed):
         cfgs.append((f"pairs/{i}", desc[i::nparts], sizes[(i + seed) % 4], 2, 0, [], 0))
     # longer histories with an estimator called repeatedly; two estimators side by side
     nh = 8 if th else 3
+    plain = [d for d in desc if not d["normalize"] and not d["cover"]]       # may be handed to an estimator as a plain array
+    covered = [d for d in desc if d["cover"]]
+
+    def with_required(al):
+        """every run has a user whose sequence an estimator can take as a plain array and one with a cover code:
+        OverwriteRef / OverwriteCover are enabled in it whatever the seed drew"""
+        al = list(al)
+        if not any(d in plain for d in al):
+            al[-1] = rng.choice(plain)
+        if len(al) > 2 and not any(d in covered for d in al):
+            al[0] = rng.choice(covered)
+        return al
     for i in range(nh):
-        al = rng.sample(desc, 3)
+        al = with_required(rng.sample(desc, 3))
         cfgs.append((f"hist/{i}", al, sizes[(i + 1 + seed) % 3], 3, 1, [1, 2, 3, 4] if th else [1, 2, 3], 60 if th else 15))
     for i in range(4 if th else 1):
-        al = rng.sample(desc, 2)
+        al = with_required(rng.sample(desc, 2))
         cfgs.append((f"two-est/{i}", al, sizes[(i + 2 + seed) % 3], 2, 2, [1, 2, 3], 60 if th else 20))
     return cfgs
 
